@@ -9,33 +9,6 @@ import NdnVerif.C18.LemmasRib
 namespace Ndn.C19
 open Ndn.C18 (Rib Entry)
 
-/-- a router-level event -/
-inductive RouterEvent where
-  /-- a sync Interest of neighbour `w` arrives on `face` (advertSyncOnInterest → RecvPing) -/
-  | ping (w face : Nat) (active : Bool)
-  /-- the advertisement of neighbour `w` is processed (ribUpdate); ignored without neighbour state -/
-  | adv (w : Nat) (entries : List C18.AdvEntry)
-  /-- checkDeadNeighbors finds `w` dead -/
-  | dead (w : Nat)
-  /-- a prefix op list of exit router `x` is applied -/
-  | papply (x : Nat) (reset : Bool) (adds rems : List Nat)
-
-def Tables.step (t : Tables) : RouterEvent → Tables
-  | .ping w face active => { t with nbrs := (recvPing t.nbrs w face active).1 }
-  | .adv w entries =>
-    match pget t.nbrs w with
-    | some _ => { t with rib := (C18.ribUpdate t.self t.rib w entries).1 }
-    | none => t
-  | .dead w =>
-    match pget t.nbrs w with
-    | some _ => { t with rib := (C18.ribDead t.rib w).1, nbrs := perase t.nbrs w }
-    | none => t
-  | .papply x reset adds rems => { t with pfx := (pfxApply t.pfx x reset adds rems).1 }
-
-/-- `NewRouter` + `Router.Start` -/
-def Tables.start (self : Nat) : Tables :=
-  { self := self, rib := (C18.Router.start self).rib, nbrs := [], pfx := [] }
-
 /-- finite costs are held only via neighbours that have a neighbour state (or the own entry) -/
 structure NbrInv (t : Tables) : Prop where
   wf : t.rib.WF
@@ -70,7 +43,7 @@ theorem nbrInv_step {t : Tables} (inv : NbrInv t) (ev : RouterEvent) : NbrInv (t
       · exact Or.inl (pget_recvPing_isSome h1)
       · exact Or.inr h1⟩
   | adv w entries =>
-    simp only [Tables.step]
+    simp only [Tables.step, Tables.stepDirty]
     cases hw : pget t.nbrs w with
     | none => exact inv
     | some nb =>
@@ -84,7 +57,7 @@ theorem nbrInv_step {t : Tables} (inv : NbrInv t) (ev : RouterEvent) : NbrInv (t
       · simp only [hh, if_false] at hlt
         exact inv.loc d h hlt
   | dead w =>
-    simp only [Tables.step]
+    simp only [Tables.step, Tables.stepDirty]
     cases hw : pget t.nbrs w with
     | none => exact inv
     | some nb =>
